@@ -33,6 +33,8 @@ def _single(draw):
                 op['sizes'] = draw(st.lists(st.integers(1, 5), min_size=accum, max_size=accum))
             if bystander:
                 op['by'] = sorted(draw(st.sets(st.integers(0, accum - 1), max_size=accum)))
+            if draw(st.integers(0, 5)) == 0:
+                op['fwd_only_at'] = draw(st.integers(0, 2))   # (no-hook mode, factor-update steps) a forward-only train-mode pass after that micro-batch
             if draw(st.integers(0, 4)) == 0:
                 # (honoured when factors are updated in step()) the batch is discarded with reset_batch() after that many micro-batches -
                 # with a dynamic loss scale the scale changes at that point - and a full set of micro-batches follows
@@ -117,7 +119,7 @@ class C04(Prop):
         labels = self._labels(case)
         for i, op in enumerate(case['program']):
             if op['op'] == 'train':
-                bad = ls.train_iter(op['seed'], op.get('sizes'), op.get('reset_after'), by=op.get('by', ()))
+                bad = ls.train_iter(op['seed'], op.get('sizes'), op.get('reset_after'), by=op.get('by', ()), fwd_only_at=op.get('fwd_only_at'))
             else:
                 bad = ls.eval_pass(op['seed'])
             # this property owns the factor clauses only; gradients are C01/C05's subject
